@@ -557,12 +557,17 @@ pub fn zone_from_tzif(b: &[u8]) -> Result<Zone, String> {
         // "Local time for timestamps on or after the last transition is
         // specified by the TZ string in the footer".
         let from = if n > 0 { raw.times[n - 1] } else { i64::MIN };
-        if n > 0 {
-            pieces.pop();
-        } else {
-            pieces.clear();
-        }
+        let last_recorded = if n > 0 { pieces.pop().map(|p| p.info) } else { pieces.clear(); None };
+        let at = pieces.len();
         materialise_posix(&tz, from, &mut infos, &mut pieces, cal::MAX_YEAR + 1);
+        // The local time type recorded for the last transition stays in force
+        // until the first transition the footer generates strictly after it
+        // (this is how tzcode, glibc and zdump read TZif data; zic relies on
+        // it, e.g. for America/Ojinaga 2022-10-30 and America/Nuuk 2023, where
+        // the footer's own rule would say otherwise at that instant).
+        if let Some(info) = last_recorded {
+            pieces[at].info = info;
+        }
     }
     Ok(Zone { infos, pieces, n_recorded: n, footer: footer_s, version: raw.version })
 }
